@@ -118,7 +118,8 @@ func c13Ingest(seed int64, i int, sc c13Scenario, dir string, out *childOut) {
 		logins = make(chan common.RemoteUserLogin) // nobody receives
 		rec := vlib.NewRec()
 		rec.Pre = note
-		proc := sshd.NewSshdProcessor(ctx, logins, vNode, vMID, rec.Writer(), newMetrics())
+		// built with a context that is never cancelled: only the worker's own context is
+		proc := sshd.NewSshdProcessor(context.Background(), logins, vNode, vMID, rec.Writer(), newMetrics())
 		sli := syslog.NewSyslogIngester(fifo, proc, npi)
 		go func() { done <- sli.Ingest(ctx) }()
 	case "auditlog":
